@@ -74,7 +74,8 @@ static void edit(PDU* root, Rng& r, std::string& log) {
     try {
     if (TCP* t = dynamic_cast<TCP*>(l)) { switch (r.below(4)) { case 0: if (t->header_size() < 48) { t->mss((u16)r.next()); log += "tcp.mss "; } break; case 1: t->remove_option(TCP::MSS); log += "tcp.rm(mss) "; break; case 2: if (t->header_size() < 50) { Bytes b = r.bytes(1 + r.below(6)); t->add_option(TCP::option((TCP::OptionTypes)(9 + r.below(200)), b.begin(), b.end())); log += "tcp.add "; } break; default: t->remove_option((TCP::OptionTypes)(r.below(256))); log += "tcp.rm "; } }
     else if (IP* ip = dynamic_cast<IP*>(l)) { if (r.chance(1, 2)) { if (ip->header_size() < 50) { ip->stream_identifier((u16)r.next()); log += "ip.sid "; } } else { ip->remove_option(IP::option_identifier(IP::SID, IP::CONTROL, 1)); log += "ip.rm(sid) "; } }
-    else if (ICMPv6* c = dynamic_cast<ICMPv6*>(l)) { if (r.chance(1, 2)) { c->source_link_layer_addr(HWAddress<6>("00:01:02:03:04:05")); log += "icmp6.add "; } else { c->remove_option((ICMPv6::OptionTypes)(1 + r.below(3))); log += "icmp6.rm "; } }
+    else if (ICMP* ic = dynamic_cast<ICMP*>(l)) { switch (r.below(4)) { case 0: ic->set_echo_reply((u16)r.next(), (u16)r.next()); log += "icmp.echo-reply "; break; case 1: ic->type((ICMP::Flags)r.below(19)); log += "icmp.type "; break; case 2: ic->set_time_exceeded(r.below(2)); log += "icmp.time-exceeded "; break; default: ic->use_length_field(r.below(2)); log += "icmp.length "; } }      // the message type changes under extensions that are already there
+    else if (ICMPv6* c = dynamic_cast<ICMPv6*>(l)) { if (r.chance(1, 3)) { c->type((ICMPv6::Types)(r.chance(1, 2) ? 128 + r.below(10) : 1 + r.below(4))); log += "icmp6.type "; } else if (r.chance(1, 2)) { c->source_link_layer_addr(HWAddress<6>("00:01:02:03:04:05")); log += "icmp6.add "; } else { c->remove_option((ICMPv6::OptionTypes)(1 + r.below(3))); log += "icmp6.rm "; } }
     else if (DHCP* d = dynamic_cast<DHCP*>(l)) { if (r.chance(1, 2)) { d->lease_time((u32)r.next()); log += "dhcp.add "; } else { d->remove_option((DHCP::OptionTypes)(1 + r.below(80))); log += "dhcp.rm "; } }
     else if (DHCPv6* d6 = dynamic_cast<DHCPv6*>(l)) { if (r.chance(1, 2)) { d6->preference(r.byte()); log += "dhcp6.add "; } else { d6->remove_option((DHCPv6::OptionTypes)(1 + r.below(20))); log += "dhcp6.rm "; } }
     else if (Dot11ManagementFrame* m = dynamic_cast<Dot11ManagementFrame*>(l)) { if (r.chance(1, 2)) { m->ssid("x" + std::to_string(r.below(1000))); log += "dot11.ssid "; } else { m->remove_option((Dot11::OptionTypes)r.below(8)); log += "dot11.rm "; } }
